@@ -150,6 +150,11 @@ func genC17(r *rngT, n int, tier string) {
 			}
 		}
 	}
+	// CRC_EXTRA of every message of the dialect `common`, as the running code computes it, against the published table
+	for _, m := range getDialect("common").Messages {
+		execOp(fmt.Sprintf("pubcrc %d", m.GetID()))
+		stat("c17-pubcrc")
+	}
 	// same-named types from different packages: each dialect must get its own codec
 	for _, dn := range []string{"fwa", "fwb", "fwa"} {
 		if !defined[dn] {
